@@ -15,11 +15,11 @@ from mcheck.core.runner import Ctx, Result, Violation
 from mcheck.props import applycommon as AC
 
 ID = "C16"
-PLACEMENTS = ["top", "after_docstring", "after_future", "in_function", "in_type_checking", "after_code", "type_checking_in_try", "in_try", "in_with", "in_for", "in_class", "next_to_if_on_call_attribute", "type_checking_else", "late_type_checking_import", "after_other_future"]
+PLACEMENTS = ["top", "after_docstring", "after_future", "in_function", "in_type_checking", "after_code", "type_checking_in_try", "in_try", "in_with", "in_for", "in_class", "next_to_if_on_call_attribute", "type_checking_else", "late_type_checking_import", "after_other_future", "with_package_import"]
 DIFF_PLACEMENTS = ["top", "in_function", "in_type_checking", "type_checking_else", "late_type_checking_import", "in_try"]   # quick tier: differential against the unconfined application
 FORMS = ["import_pkg", "import_sub", "from_import", "from_import_as", "from_star", "import_as"]
 USES = [True, False]
-STUBKINDS = ["new_user_module", "typing_name", "already_imported_name", "typed_dict", "same_module_other_name", "no_new_import", "user_module_named_like_typing", "same_short_name_other_module"]
+STUBKINDS = ["new_user_module", "typing_name", "already_imported_name", "typed_dict", "same_module_other_name", "no_new_import", "user_module_named_like_typing", "same_short_name_other_module", "same_short_name_in_submodule"]
 RULE = (
     "complete product of import placement {top, after docstring, after __future__, inside a function, inside an existing "
     "`if TYPE_CHECKING:`, after module code, inside a module-level try / with / for block, inside a class body} x form {import a, import a.b, from a import b, from a import b as c, from a "
@@ -61,6 +61,9 @@ def gen_source(pl: str, form: str, use: bool) -> Tuple[str, str]:
     elif pl == "type_checking_in_try":
         # the compatibility idiom: TYPE_CHECKING is bound inside try/except, below the plain imports
         L += ["import os", stmt, "try:", "    from typing import TYPE_CHECKING", "except ImportError:", "    TYPE_CHECKING = False"]
+    elif pl == "with_package_import":
+        # the package itself is imported too (the name `shp` is bound whatever the form binds)
+        L += ["import os", "import shp", stmt]
     elif pl == "after_code":
         L += ["import os", "VALUE = os.sep", stmt]
     elif pl == "type_checking_else":
@@ -122,6 +125,10 @@ def make_traces(mod, kind: str):
         import vfx.mytyping as MT
 
         return [CallTrace(f, {"x": MT.TT, "y": int}, MT.TT, None)], 0
+    if kind == "same_short_name_in_submodule":
+        import shp.sub
+
+        return [CallTrace(f, {"x": shp.sub.Circle, "y": int}, int, None)], 0
     if kind == "same_short_name_other_module":
         import shpb
 
